@@ -175,7 +175,8 @@ func buildCorpus(tier string) {
 }
 
 var valueProbes = []string{"toString(fnz)", "toString(fz)", "[fz, fnz, n1, n2, n3, n4]", "fnz", "'' + fz + '|' + fnz", "[名前, x\u0662, cafe\u0301]",
-	"[st1.N, st1.S, st1.F]", "[o1.a, o1.b, o1.c.d]", "this.n1", "[toString(n1), toString(n2), toString(n3), toString(n4)]", "an1", "[t1, year(t1), month(t1)]", "mapToArr(l1, 'age')"}
+	"[st1.N, st1.S, st1.F]", "[o1.a, o1.b, o1.c.d]", "this.n1", "[toString(n1), toString(n2), toString(n3), toString(n4)]", "an1", "[t1, year(t1), month(t1)]", "mapToArr(l1, 'age')",
+	"(max)(n1, 2)", "1 + ((min))(n1, 7)", "(o1).a", "Max(2, 7)", "Len('x') + 1", "Max > 3 ? 'big' : 'small'", "max(an2...)", "max([1, 2, 3]...)", "(f_id)(1)"}
 
 const (
 	puRep = iota
